@@ -528,25 +528,46 @@ func compare(c Case, got []Entry) string {
 		e.Message = normMessage(e.Message, false)
 		kept = append(kept, e)
 	}
-	// match reported to expected entries: first exactly; then, for expectations that stem from a
-	// block comment, with asterisks in the reported message read as white space.
+	// match reported to expected entries: a reported entry fits an expectation of its file and line
+	// when the assignee is the same (outer blanks of a padded name aside) and the message is the
+	// same, or, for expectations that stem from a block comment, the same with asterisks in the
+	// reported message read as white space. Several comments may share a line, and a padded
+	// expectation fits more reports than a plain one, so the pairing is a maximum matching
+	// (augmenting paths), not a greedy one.
 	used := make([]bool, len(want))
 	matched := make([]bool, len(kept))
 	sortEntries(kept)
-	for pass := 0; pass < 2; pass++ {
-		for k, e := range kept {
-			if matched[k] {
+	fits := func(k, i int) bool {
+		e, w := kept[k], want[i]
+		if w.File != e.File || w.Line != e.Line || !sameAssignee(w, e) {
+			return false
+		}
+		return w.Message == e.Message || (w.Block && w.Message == normMessage(e.Message, true))
+	}
+	owner := make([]int, len(want)) // expectation -> reported entry
+	for i := range owner {
+		owner[i] = -1
+	}
+	var try func(k int, seen []bool) bool
+	try = func(k int, seen []bool) bool {
+		for i := range want {
+			if seen[i] || !fits(k, i) {
 				continue
 			}
-			for i, w := range want {
-				if used[i] || w.File != e.File || w.Line != e.Line || !sameAssignee(w, e) {
-					continue
-				}
-				if (pass == 0 && w.Message == e.Message) || (pass == 1 && w.Block && w.Message == normMessage(e.Message, true)) {
-					used[i], matched[k] = true, true
-					break
-				}
+			seen[i] = true
+			if owner[i] < 0 || try(owner[i], seen) {
+				owner[i] = k
+				return true
 			}
+		}
+		return false
+	}
+	for k := range kept {
+		try(k, make([]bool, len(want)))
+	}
+	for i, k := range owner {
+		if k >= 0 {
+			used[i], matched[k] = true, true
 		}
 	}
 	var unexpected []Entry
